@@ -314,6 +314,36 @@ def rule_m2(repo, res):
                                     f"`{norm(n, 70)}` stores something other than a list of values in the dict storage; "
                                     "lookup (`[0]`), getall and pop() assume key -> list of values",
                                     where=f"pvl/collections.py:{n.lineno}"))
+    # M2-POS: a storage list (key -> values, kept in the order of the item list) is only ever changed at its tail,
+    # in step with the item list's tail: append(value) / pop().  A value-based or differently positioned mutation
+    # (remove(v), pop(i), insert, sort, reverse, del l[i]) picks the wrong occurrence when values compare equal.
+    for name, fn in ci.methods.items():
+        aliases = set()
+        for n in ast.walk(fn):
+            if isinstance(n, ast.Assign) and isinstance(n.targets[0], ast.Name) and pe.is_storage_list(n.value, set()):
+                aliases.add(n.targets[0].id)
+        for n in ast.walk(fn):
+            bad = None
+            if isinstance(n, ast.Call) and isinstance(n.func, ast.Attribute) and pe.is_storage_list(n.func.value, aliases):
+                m = n.func.attr
+                if m in ("remove", "insert", "sort", "reverse", "extend", "clear") or (m == "pop" and (n.args or n.keywords)):
+                    bad = norm(n, 60)
+                elif m in ("append", "pop"):
+                    res.oblige("M2-POS", f"{CONTAINER}.{name} `{norm(n, 60)}` changes the storage list at its tail", ok=True)
+            if isinstance(n, ast.Delete):
+                for t in n.targets:
+                    if isinstance(t, ast.Subscript) and pe.is_storage_list(t.value, aliases):
+                        bad = norm(n, 60)
+            if isinstance(n, ast.Assign) and isinstance(n.targets[0], ast.Subscript) and pe.is_storage_list(n.targets[0].value, aliases):
+                bad = norm(n, 60)
+            if bad:
+                res.oblige("M2-POS", f"{CONTAINER}.{name} `{bad}` changes the storage list at its tail", ok=False)
+                res.add(Finding("M2-POS", f"{CONTAINER}.{name}", bad,
+                                f"{CONTAINER}.{name} changes a key's value list with `{bad}`: the value lists mirror the item "
+                                "list in order and are only ever changed at the tail (append(value) / pop()); a value-based "
+                                "or differently positioned change removes or moves the wrong occurrence when two values of "
+                                "the key compare equal, so lookup/getall disagree with the item list",
+                                where=f"pvl/collections.py:{n.lineno}"))
     # the key written to both representations is the same expression
     for name, fn in ci.methods.items():
         keys_list, keys_dict = set(), set()
